@@ -22,6 +22,15 @@ from mc.report import Run
 PROP = "C06"
 
 
+def _describe(a) -> str:
+    a = np.asarray(a)
+    if a.ndim == 0:
+        return str(a.item())
+    if a.size == 0:
+        return f"empty{a.shape}"
+    return f"arr{a.shape}[0]={float(a.reshape(-1)[0])}"
+
+
 def job(desc: Dict[str, Any]) -> Dict[str, Any]:
     import hashlib
     import jax
@@ -48,7 +57,7 @@ def job(desc: Dict[str, Any]) -> Dict[str, Any]:
         if exp is None:
             continue
         feed = {n: np.asarray(a) for n, a in zip(names, args)}
-        steer = [(a.item() if np.asarray(a).ndim == 0 else f"x[0,0]={float(np.asarray(a).reshape(-1)[0])}") for a in args]
+        steer = [_describe(a) for a in args]
         st, out = G.ort_run(model, feed)
         ran += 1
         if st != "ok":
@@ -71,7 +80,7 @@ def job(desc: Dict[str, Any]) -> Dict[str, Any]:
                 break
     return {"status": "ok", "bad": bad[:4], "n_bad": len(bad), "ran": ran, "distinct_outputs": len(distinct),
             "digest": hashlib.sha256(model.SerializeToString()).hexdigest()[:14],
-            "steer": [str([np.asarray(a).item() for a in args[1:]]) for args in feeds][:12]}
+            "steer": [str([_describe(a) for a in args]) for args in feeds][:12]}
 
 
 def main(tier: str) -> int:
